@@ -730,3 +730,45 @@ func VerifC12LongWrite() {
 	vf.Assert("same-bytes-on-every-run", again == ref)
 	vf.Reach("end")
 }
+
+// VerifC12InfoOutputs: every info / gen command prints the same bytes when any one map
+// iteration anywhere in the run takes another order (the listings are built from Go maps in
+// several places; none of that order may reach standard output).
+func VerifC12InfoOutputs() {
+	which := vf.NondetIntRange("command", 0, 7)
+	var cmd *cobra.Command
+	var flags []string
+	switch which {
+	case 0:
+		cmd = infoCmdAttrList
+	case 1:
+		cmd = infoCmdChordList
+	case 2:
+		cmd, flags = infoCmdAttrDescribe, []string{"--target", "Augmented11", "--root", "Eb"}
+	case 3:
+		cmd, flags = infoCmdChordDescribe, []string{"--target", []string{"Dbm7", "C_9/E", "F#aug"}[vf.NondetIntRange("target", 0, 2)]}
+	case 4:
+		cmd, flags = infoKeyCmdDescribe, []string{"--key", []string{"F#", "Ebm"}[vf.NondetIntRange("key", 0, 1)]}
+	case 5:
+		cmd, flags = genCmdAttr, []string{"--maxDegree", "9"}
+	case 6:
+		cmd = infoKeyCmdList
+	case 7:
+		cmd, flags = infoKeyCmdConv, []string{"--key", "Gb", "--command", "rpd"}
+	}
+	flags = append(flags, "--output", "")
+	vf.Assert("flags-parse", cmd.ParseFlags(flags) == nil)
+	ref, err := verifCapture("info-ref.txt", func() error { return cmd.RunE(cmd, nil) })
+	vf.Assert("command-succeeds", err == nil && ref != "")
+	reps := 1
+	if vf.Native() {
+		reps = 25
+	}
+	for i := 0; i < reps; i++ {
+		vf.NondetMapOrder(true)
+		got, gerr := verifCapture("info-got.txt", func() error { return cmd.RunE(cmd, nil) })
+		vf.NondetMapOrder(false)
+		vf.Assert("output-independent-of-map-order", gerr == nil && got == ref)
+	}
+	vf.Reach("end")
+}
